@@ -50,6 +50,11 @@ def run_one(s):
         net.eval()
         u0 = (torch.randint(-8, 9, (2, *N, ch)).to(torch.float32)) / 4.0
         with torch.no_grad():
+            # the object is a FUNCTION of its input: a broad-band field on a finer grid is evaluated before anything else and again at
+            # the very end, after calls at coarser resolutions (zero-padding regime included) -- same output
+            NF_ = [2 * n + 3 for n in N]
+            vF = (torch.randint(-8, 9, (1, *NF_, ch)).to(torch.float32)) / 4.0
+            yF0 = call(vF)
             before = u0.clone()
             y0 = call(u0)
             tr["input_unchanged"] = tr["input_unchanged"] and bool(torch.equal(before, u0))
@@ -61,6 +66,12 @@ def run_one(s):
                 ys = call(us)
                 tr["input_unchanged"] = tr["input_unchanged"] and bool(torch.equal(b2, us))
                 held.append((sh, us, ys))
+            # the SAME tensor object refilled in place with the shifted field (a staging buffer): the output follows the content
+            buf = u0.clone()
+            call(buf)
+            sh1 = [1] + [0] * (d - 1)
+            buf.copy_(torch.roll(u0, shifts=tuple(sh1), dims=tuple(range(1, d + 1))))
+            held.append((sh1, buf.clone(), call(buf)))
             # every output is READ only now, after all the calls with inputs of the same shape: results are independent objects
             tr["y0"] = fld(y0)
             for sh, us, ys in held:
@@ -93,6 +104,8 @@ def run_one(s):
                 for m in s["refine"]:
                     yf = call(field(m * Nc))
                     tr["refine"].append({"m": m, "yc": fld(yc), "yf": fld(yf)})
+            yF1 = call(vF)
+            tr["again"] = {"y0": fld(yF0), "y1": fld(yF1)}
     except Exception as e:
         import traceback
         tr["exc"] = type(e).__name__
